@@ -358,6 +358,16 @@ func runC20(c *core.Ctx) {
 				bad, path := q.MustPassBetween(nil, ha.Blocks[0], nil, core.IsNormalReturn, nil)
 				c.Check(bad == nil, "R2", tn+"/HandleActive/"+nm, p.Pos(ha.Pos()), "on every path", "HandleActive does not on every path: "+nm, p.PathString(path, bad)...)
 			}
+			// armed before the event is handed on: a downstream handler that closes the channel from its own
+			// HandleActive makes inactive pass this handler synchronously, and a timer armed afterwards is never released
+			c.Instance("R2")
+			isFwd := func(x ssa.Instruction) bool {
+				cc := core.CallCommon(x)
+				return cc != nil && cc.IsInvoke() && cc.Method.Name() == "HandleActive" && core.ParamOf(ha, cc.Value) == 1
+			}
+			bad, path := arm.MustPassBetween(nil, ha.Blocks[0], nil, isFwd, nil)
+			c.Check(bad == nil, "R2", tn+"/HandleActive/arms-before-forwarding", p.Pos(ha.Pos()), "timer and context installed before the active event is forwarded",
+				"the active event is forwarded before the timer is armed: an inactive event raised downstream during activation passes the handler first and the timer armed afterwards is never released", p.PathString(path, bad)...)
 			forwardOnce(c, p, ha, "HandleActive", tn, "R2")
 		} else {
 			c.Bad("R2", tn+"/HandleActive", "", "HandleActive not found")
